@@ -667,6 +667,17 @@ func (fx *FuncCtx) applyContract(st *State, con *Contract, callee *types.Func, r
 	}
 	// frame
 	fams := fx.instFamilies(env, con.Writes)
+	if fx.readsChecked() {
+		if !con.HasReads {
+			fx.unsupportedf("reads clause: callee %s has no reads clause", what)
+		}
+		for _, f := range fx.instFamilies(env, con.Reads) {
+			fx.checkCallReadFrame(st, f, call, what)
+		}
+		for _, f := range fams {
+			fx.checkCallReadFrame(st, f, call, what)
+		}
+	}
 	for _, f := range fams {
 		fx.checkCallFrame(st, f, call, what)
 		fx.havocFamily(st, f)
@@ -780,6 +791,7 @@ func (fx *FuncCtx) inlineBody(st *State, tg *inlineTarget, recv Val, args []Val)
 			fx.con.Props = outerCon.Props
 			// stores of the inlined callee are still checked against the caller's frame
 			fx.con.Writes, fx.con.HasWrites = outerCon.Writes, outerCon.HasWrites
+			fx.con.Reads, fx.con.HasReads = outerCon.Reads, outerCon.HasReads
 			fx.con.Witnesses = nil
 		}
 	}
